@@ -187,6 +187,26 @@ class CaseRun:
                 return False
             sh.own.extend(bytes(n))
             self.check_common(b, sh, f"after grow({n})")
+        elif kind == "huge":
+            # a request that cannot be honoured (2^62 bytes): it fails - and the buffer is as it was: capacity, free list, free
+            # total, every live byte (not sent to the model: nothing happens)
+            _, how = op
+            before = (state_line(b), buf_bytes(b))
+            try:
+                if how == "alloc":
+                    b.allocate(2 ** 62)
+                else:
+                    b.grow(2 ** 62)
+                self.failure("C04", "huge-request-accepted", f"{how} of 2^62 bytes did not fail")
+                return False
+            except Exception:
+                self.tags["huge." + how] += 1
+            if (state_line(b), buf_bytes(b)) != before:
+                for prop in ("C04", "C12"):
+                    self.failure(prop, "failed-request-changed-state", f"after the failed {how} of 2^62 bytes the buffer reports "
+                                 f"`{state_line(b)[:120]}` over {len(buf_bytes(b))} bytes of storage; before: `{before[0][:120]}` over {len(before[1])}")
+                return False
+            self.check_common(b, sh, f"after a failed {how} of 2^62 bytes")
         elif kind == "write":
             _, idx, seed = op
             o, n, _ = sh.live[idx]
@@ -207,6 +227,9 @@ def random_opgen(r, nops):
     def gen(b, sh):
         for _ in range(nops):
             k = r.choice(["alloc"] * 5 + ["free"] * 4 + ["grow"] + ["write"] * 3)
+            if r.random() < 0.04:
+                yield ("huge", r.choice(["alloc", "grow"]))
+                continue
             if k == "alloc":
                 if b.chunks and r.random() < 0.3:      # exact fit of an existing chunk
                     c = r.choice(b.chunks)
@@ -253,6 +276,11 @@ def corpus_cases():
         # O-1: free on a completely full buffer
         ({"kind": "numpy", "cap": 16, "align": 1, "grow_step": None, "dump": True},
          [("alloc", 16, False), ("free", 0), ("alloc", 8, True)]),
+        # a request that fails half way must leave the bookkeeping as it was: the next requests are served from real storage
+        ({"kind": "numpy", "cap": 64, "align": 1, "grow_step": None},
+         [("alloc", 40, True), ("huge", "alloc"), ("alloc", 100, True), ("huge", "grow"), ("free", 0), ("alloc", 30, False), ("write", 1, 7)]),
+        ({"kind": "bytearray", "cap": 64, "align": 8, "grow_step": 24},
+         [("alloc", 40, True), ("huge", "grow"), ("alloc", 100, True), ("huge", "alloc"), ("alloc", 3, False), ("write", 1, 9)]),
         ({"kind": "bytearray", "cap": 8, "align": 8, "grow_step": 7, "dump": False},
          [("alloc", 8, True), ("alloc", 0, True), ("free", 1), ("free", 0)]),
         # O-2: many growth rounds with a small grow step
